@@ -174,6 +174,28 @@ func runR011(c *core.Ctx) {
 			return true
 		})
 		c.Check(usesTab && usesHex && rawWrites == 1, rel, e.fn, "bytes outside the table are hex-escaped, bytes inside are copied", fd.Pos(), "", fmt.Sprintf("table consulted=%v hexEscape used=%v raw writes=%d (expected 1)", usesTab, usesHex, rawWrites))
+		// the input is walked byte by byte: ranging over a string decodes runes and replaces every byte that is not part of
+		// well-formed UTF-8 by U+FFFD, so byte strings (written through WriteString(string(v))) do not survive
+		var runeWalks []string
+		ast.Inspect(fd.Body, func(n ast.Node) bool {
+			switch x := n.(type) {
+			case *ast.RangeStmt:
+				if b, ok := inf.Types[x.X].Type.Underlying().(*types.Basic); ok && b.Info()&types.IsString != 0 && x.Value != nil {
+					runeWalks = append(runeWalks, "range over the string "+core.ExprString(x.X))
+				}
+			case *ast.CallExpr:
+				if f := core.Callee(inf, x); f != nil && f.Pkg() != nil && f.Pkg().Path() == "unicode/utf8" && strings.HasPrefix(f.Name(), "DecodeRune") {
+					runeWalks = append(runeWalks, "utf8."+f.Name())
+				}
+				if tv, ok := inf.Types[x.Fun]; ok && tv.IsType() {
+					if sl, ok := tv.Type.Underlying().(*types.Slice); ok && types.Identical(sl.Elem(), types.Typ[types.Rune]) {
+						runeWalks = append(runeWalks, "conversion to []rune")
+					}
+				}
+			}
+			return true
+		})
+		c.Check(len(runeWalks) == 0, rel, e.fn, "the input is walked byte by byte, never rune by rune", fd.Pos(), "", strings.Join(runeWalks, "; ")+": bytes outside well-formed UTF-8 become U+FFFD before they are escaped")
 	}
 	// hexEscape shape
 	_, hd := mustDecl(c, rel, "hexEscape")
